@@ -48,7 +48,7 @@ def _case(draw):
     hist = []
     for _ in range(k):
         A = draw(_program(False))
-        A["ending"] = draw(st.sampled_from(["solve", "solve", "abandon", "raise", "unbounded"]))
+        A["ending"] = draw(st.sampled_from(["solve", "solve", "abandon", "raise", "unbounded", "stray"]))
         A["opts"] = draw(gen.solve_options(solvers=("CLARABEL", "SCS"), allow_drh=True))
         A["opts"]["verbose"] = draw(st.sampled_from([0, 1, 2]))
         if draw(st.integers(0, 2)) == 0:
@@ -57,6 +57,9 @@ def _case(draw):
                                   else {"max_iters": draw(st.sampled_from([20, 200])), "eps": draw(st.sampled_from([1e-2, 1e-6]))})
         A["null"] = draw(st.booleans())
         hist.append(A)
+    if draw(st.integers(0, 3)) == 0:
+        # objects created before any problem exists in the process
+        hist.insert(0, {"instrs": [], "tags": [], "ending": "stray", "opts": {}, "null": False})
     return {"B": B, "optsB": optsB, "history": hist, "other_verbose": draw(st.sampled_from([0, 1, 2]))}
 
 
@@ -92,6 +95,18 @@ def sha(*arrays):
 def run_history_item(A):
     from PEPit import null_point, null_expression
     try:
+        if A["ending"] == "stray":
+            # objects created outside any problem (documented constructors), possibly before the first PEP() of the process
+            from PEPit import Point, Expression, BlockPartition
+            from PEPit.functions import SmoothConvexFunction
+            with prog.quiet():
+                p1, p2 = Point(), Point()
+                e1 = Expression()
+                bp = BlockPartition(d=2)
+                bp.get_block(p1 + p2, 0)
+                fn = SmoothConvexFunction(L=1.0)
+                fn.gradient(p1)
+            return
         env = prog.run_program(A["instrs"])
         ending = A["ending"]
         if ending == "abandon":
